@@ -72,7 +72,7 @@ func (x *fnv) evalCall(s *State, call *ast.CallExpr) []Value {
 	}
 	args := x.evalArgs(s, call, sig)
 	name := types.ExprString(call.Fun)
-	x.runAts(s, name)
+	x.runAts(s, name, call)
 
 	if tgt != nil && tgt.obj != nil {
 		if res, ok := x.modelCall(s, tgt.obj, recv, args, call); ok {
@@ -290,11 +290,21 @@ func (x *fnv) applyContract(s *State, fc *FuncContract, declSig *types.Signature
 	if len(res) == 1 {
 		post.vars["result"] = res[0]
 	}
-	for _, cl := range fc.Ensures {
-		s.Assume(post.assumption(cl.Expr))
+	// the callee's ghost variables: their final values are known only through its postconditions
+	for _, g := range fc.Ghosts {
+		post.vars[g.Name] = x.h.freshValue(s, post.resolveType(g.Type), "ghost_"+g.Name)
+	}
+	useEnsures := true
+	if x.fc != nil && x.fc.Uses != nil && !x.fc.Uses[short] {
+		useEnsures = false // the caller's contract says it does not rely on this callee's postconditions
+	}
+	if useEnsures {
+		for _, cl := range fc.Ensures {
+			s.Assume(post.assumption(cl.Expr))
+		}
 	}
 	// vacuity guard: the callee's postconditions must be consistent with what is known here
-	if len(fc.Ensures) > 0 {
+	if len(fc.Ensures) > 0 && useEnsures {
 		x.cover(s, "call."+sanitize(short), pos)
 	}
 	return res
